@@ -325,10 +325,12 @@ package ast
 // ---------------------------------------------------------------------------
 
 //@ func (*BinaryExprNode).getTypedExpr
-//@   props C10
+//@   props C10 C01 C11
 //@   requires !istype(node.left, *SetFunctionNode) && !istype(node.right, *SetFunctionNode)
 //@   pure
 //@   ensures[typed-or-error] result1 == nil ==> result0 != nil
+//@   ensures[a-null-test-only-for-the-null-literal] result1 == nil && istype(result0, *IsNilExprNode) ==> istype(node.right, NullConstNode)
+//@   ensures[contains-compares-strings] result1 == nil && !istype(node.right, NullConstNode) && (node.op == BinaryOpContains || node.op == BinaryOpNotContains) ==> istype(result0, *BinaryStringExprNode) && as(result0, *BinaryStringExprNode).op == node.op && ref(as(result0, *BinaryStringExprNode).left) == ref(node.left) && ref(as(result0, *BinaryStringExprNode).right) == ref(node.right)
 //@ func (*BinaryExprNode).handleIsNullOps
 //@   props C10 C01
 //@   pure
@@ -428,6 +430,7 @@ package ast
 //@   props C10 C11 C02
 //@   assume node != nil
 //@   modifies *
+//@   ensures[every-string-literal-is-accepted] old(bl.err) == nil && tokType(tnSym(node)) == zitiql.ZitiQlLexerSTRING ==> bl.err == nil
 //@   ensures[string-literal-denotes] old(bl.err) == nil && bl.err == nil && tokType(tnSym(node)) == zitiql.ZitiQlLexerSTRING ==> bl.currentStack == old(bl.currentStack) && len(bl.currentStack.values) == old(len(bl.currentStack.values)) + 1 && istype(bl.currentStack.values[old(len(bl.currentStack.values))], *StringConstNode) && forallStr(s, unquote2(unquote1(tnText(node))) == escFrom(s, 0) ==> as(bl.currentStack.values[old(len(bl.currentStack.values))], *StringConstNode).value == s, escFrom(s, 0))
 //@   ensures[sort-direction-tokens-push-their-direction] old(bl.err) == nil && bl.err == nil && (tokType(tnSym(node)) == zitiql.ZitiQlLexerASC || tokType(tnSym(node)) == zitiql.ZitiQlLexerDESC) ==> bl.currentStack == old(bl.currentStack) && len(bl.currentStack.values) == old(len(bl.currentStack.values)) + 1 && istype(bl.currentStack.values[old(len(bl.currentStack.values))], SortDirection) && as(bl.currentStack.values[old(len(bl.currentStack.values))], SortDirection) == (tokType(tnSym(node)) == zitiql.ZitiQlLexerASC)
 // a sort field takes the direction on top of the stack, ascending when there is none, and the symbol below it
